@@ -6,6 +6,7 @@ Also validates the binary64 model itself against the hardware (f64mul/div/add/ri
 Oracle (independent of the Lean model): fractions.Fraction arithmetic on picoseconds.
 """
 import operator
+import os
 import copy as _copy
 import pickle
 from fractions import Fraction as Fr
@@ -724,6 +725,81 @@ FLAT_HOWS = ['reshape', 'ravel', 'flatten']
 STRIP_HOWS = ['pickle', 'stripview']
 
 
+BOGUS_UNITS = {'str': 'bogus', 'upper': 'MS', 'empty': '', 'int': 5, 'float': 1e-3, 'list': [], 'dict': {}, 'bytes': b'ms', 'tuple': ('ms',)}
+BAD_CALLS = {   # method -> {variant: action}; every one is refused on HEAD and must leave the object as it was (class L7)
+    '__add__': {'str': lambda o, n: o + 'x', 'mismatch': lambda o, n: o + list(range(n + 2)), 'none': lambda o, n: o + None},
+    '__rsub__': {'str': lambda o, n: 'x' - o, 'mismatch': lambda o, n: list(range(n + 2)) - o},
+    '__lt__': {'mismatch': lambda o, n: o < np.arange(n + 2), 'dict': lambda o, n: o < {}},
+    '__eq__': {'mismatch': lambda o, n: o == list(range(n + 2))},
+    'max': {'axis': lambda o, n: o.max(axis=0), 'out': lambda o, n: o.max(out=np.zeros((), dtype=np.int64)), 'axis5': lambda o, n: o.max(axis=5)},
+    'min': {'axis5': lambda o, n: o.min(axis=5), 'badkw': lambda o, n: o.min(bogus=1)},
+    'sum': {'axis5': lambda o, n: o.sum(axis=5), 'dtype': lambda o, n: o.sum(dtype='bogus')},
+    'ptp': {'axis5': lambda o, n: o.ptp(axis=5)},
+    'prod': {'plain': lambda o, n: o.prod()},
+    'var': {'plain': lambda o, n: o.var()},
+    '__getitem__': {'outside': lambda o, n: o[n + 5], 'str': lambda o, n: o['x'], 'none3': lambda o, n: o[None, None, None, 0, 0]},
+    '__setitem__': {'outside': lambda o, n: o.__setitem__(n + 5, 1), 'str': lambda o, n: o.__setitem__(0, 'x'),
+                    'mismatch': lambda o, n: o.__setitem__(slice(None), list(range(n + 2)))},
+    'index_at': {'badmode': lambda o, n: o.index_at(1, mode='bogus'), 'badkw': lambda o, n: o.index_at(1, bogus=2)},
+    'slice_during': {'notepochs': lambda o, n: o.slice_during(5)},
+    'during': {'notepochs': lambda o, n: o.during([1, 2])},
+    '__iadd__': {'mismatch': lambda o, n: o.__iadd__(list(range(n + 2))), 'str': lambda o, n: o.__iadd__('x')},
+    '__isub__': {'mismatch': lambda o, n: o.__isub__(np.arange(n + 2)), 'none': lambda o, n: o.__isub__(None)},
+    '__itruediv__': {'zero': lambda o, n: o.__itruediv__(0), 'str': lambda o, n: o.__itruediv__('x')},
+    'reshape': {'bad': lambda o, n: o.reshape(n + 1, 7)},
+    'view': {'bad': lambda o, n: o.view('bogus')},
+    'astype': {'bad': lambda o, n: o.astype('bogus')},
+}
+U_ONLY_BAD = {'__imul__': {'zero': lambda o, n: o.__imul__(0), 'str': lambda o, n: o.__imul__('x')},
+              'convert_unit': {'absent': lambda o, n: o.convert_unit('s')}}
+T_ONLY = {'prod', 'var', 'index_at', 'max', 'ptp'}     # (a UniformTime answers these, or has another signature)
+_NONE_ACCEPTED = {}
+
+
+def none_accepted():
+    """does `convert_unit(None)` relabel (None = the constructors' spelling of seconds) or refuse?  Either is fine for the property; the
+    generator only needs to know in which unit later bare numbers will be read, to keep them inside 2^62 ps"""
+    key = os.environ.get('NITIME_REPO', '')
+    if key not in _NONE_ACCEPTED:
+        t = ts().TimeArray(1, time_unit='ms')
+        try:
+            t.convert_unit(None)
+            _NONE_ACCEPTED[key] = True
+        except Exception:  # noqa
+            _NONE_ACCEPTED[key] = False
+    return _NONE_ACCEPTED[key]
+
+
+def full_snapshot(o):
+    """everything a refused call might have touched: payload bytes, dtype, shape, flags, every instance attribute (values of time
+    objects by payload + their own attributes), and the behaviour probe"""
+    def val(v):
+        if isinstance(v, np.ndarray):
+            return (type(v).__name__, v.dtype.str, v.shape, np.asarray(v).tobytes(),
+                    tuple(sorted((k, val(x)) for k, x in getattr(v, '__dict__', {}).items())))
+        return repr(v)
+    a = np.asarray(o)
+    return (type(o).__name__, a.dtype.str, a.shape, a.tobytes(), a.flags.writeable,
+            tuple(sorted((k, val(v)) for k, v in vars(o).items())), probe(o))
+
+
+def do_bad(o, st):
+    """a call that should be refused; returns the kind of exception (None: accepted)"""
+    T = ts().TimeArray
+    n = int(np.asarray(o).size)
+    try:
+        if st[1] == 'conv':
+            o.convert_unit(None if st[2] == 'none' else BOGUS_UNITS[st[3]])
+        elif st[1] == 'wrap':
+            kw = {} if st[4] == 'absent' else {'copy': bool(st[4])}
+            T(o, time_unit=BOGUS_UNITS[st[3]], **kw)
+        else:
+            (BAD_CALLS.get(st[2]) or U_ONLY_BAD[st[2]])[st[3]](o, n)
+    except Exception as e:  # noqa
+        return err_kind(e)
+    return None
+
+
 def do_step(o, st):
     T = ts().TimeArray
     k = st[0]
@@ -765,6 +841,8 @@ def do_step(o, st):
 
 def step_tok(st):
     k = st[0]
+    if k == 'bad':
+        return 'bad=%s=%s' % (st[1], st[2])
     if k == 'wrap':
         return 'wrap=%s=%d' % ('none' if st[1] in ('none', 'absent') else st[1], 0 if st[2] == 0 else 1)
     if k == 'conv':
@@ -784,10 +862,12 @@ def step_tok(st):
     raise ValueError(k)
 
 
-def shadow_step(state, st):
+def shadow_step(state, st, accepted=False):
     """the property's own account of a step on (cls, label, scalar, ps) — plain integers, no model"""
     cls, lab, sc, ps = state
     k = st[0]
+    if k == 'bad':      # a refused call leaves everything as it was; an ACCEPTED convert_unit(None) makes it seconds
+        return (cls, 's', sc, ps) if (st[1] == 'conv' and st[2] == 'none' and accepted) else state
     if k == 'wrap':
         return ('T', lab if st[1] in ('none', 'absent') else st[1], sc, ps)
     if k == 'conv':
@@ -816,7 +896,7 @@ def shadow_step(state, st):
     raise ValueError(k)
 
 
-def gen_steps(rng, cls0, lab, sc, ps, nsteps):
+def gen_steps(rng, cls0, lab, sc, ps, nsteps, bad_weight=2):
     """steps valid for the running shape/class; every history contains at least one re-wrapping or view"""
     steps, state = [], (cls0, lab, sc, list(ps))
     for i in range(nsteps):
@@ -833,7 +913,27 @@ def gen_steps(rng, cls0, lab, sc, ps, nsteps):
                 opts.append('ar')
         elif cls == 'T':
             opts.append('ar')
+        opts += ['bad'] * bad_weight
         k = rng.choice(opts)
+        if k == 'bad':
+            r = rng.random()
+            if cls == 'T' and r < 0.3:
+                st = ('bad', 'conv', 'none', 'none')
+            elif cls == 'T' and r < 0.55:
+                st = ('bad', 'conv', 'bogus', rng.choice(sorted(BOGUS_UNITS)))
+            elif r < 0.7:
+                st = ('bad', 'wrap', 'bogus', rng.choice(sorted(BOGUS_UNITS)), rng.choice([0, 1, 'absent']))
+            else:
+                pool = dict(BAD_CALLS)
+                if cls == 'U':
+                    pool = {m: v for m, v in pool.items() if m not in T_ONLY}
+                    pool.update(U_ONLY_BAD)
+                meth = rng.choice(sorted(pool))
+                st = ('bad', 'call', meth, rng.choice(sorted(pool[meth])))
+            new = shadow_step(state, st, accepted=none_accepted())
+            steps.append(st)
+            state = new
+            continue
         if k == 'wrap':
             st = ('wrap', rng.choice(UNITS + ['none', 'absent']), rng.choice([0, 0, 0, 1, 'absent']))
         elif k == 'conv':
@@ -886,7 +986,14 @@ def probe(o):
 
 
 def canon_O(o):
-    return canon_T(o) + '~' + probe(o)
+    c = canon_T(o)
+    if c.startswith('T:'):
+        lab = getattr(o, 'time_unit', '?')
+        if lab is None:          # `None` is the constructors' spelling of seconds
+            c = 'T:s:' + c.split(':', 2)[2]
+        elif not (isinstance(lab, str) and lab in UNITS):
+            c = 'T:?:' + ':'.join(c.split(':')[-2:])
+    return c + '~' + probe(o)
 
 
 def run_hist(sp, steps, opn, build_operand):
@@ -897,7 +1004,22 @@ def run_hist(sp, steps, opn, build_operand):
     except Exception as e:  # noqa
         return 'err source ' + err_kind(e), obs
     live, states = [[o, canon_O(o)]], [canon_O(o)]
-    for st in steps:
+    obs['bad'] = {}
+    for i_st, st in enumerate(steps):
+        if st[0] == 'bad':
+            before = full_snapshot(o)
+            kind = do_bad(o, st)
+            try:
+                after = full_snapshot(o)
+            except Exception as e:  # noqa
+                after = ('snapshot raises', err_kind(e))
+            c = canon_O(o)
+            obs['bad'][str(i_st)] = {'raised': kind, 'changed': None if before == after else [repr(before)[:300], repr(after)[:300]]}
+            states.append(c)
+            live[-1][1] = c if kind is None else live[-1][1]
+            if not (isinstance(getattr(o, 'time_unit', None), str) and o.time_unit in UNITS) and getattr(o, 'time_unit', 0) is not None:
+                return 'ok ' + '|'.join(states) + ' # not-run', obs
+            continue
         try:
             o2 = do_step(o, st)
         except Exception as e:  # noqa
@@ -1001,7 +1123,14 @@ def judge_hist(c, fail):
     state = tuple(m['expect0'])
     for i, st_s in enumerate(states_s.split('|')):
         kind = 'source' if i == 0 else steps[i - 1][0]
-        if i > 0:
+        if kind == 'bad':
+            kind = 'refused-step'
+            ob = ((m.get('obs') or {}).get('bad') or {}).get(str(i - 1)) or {}
+            if ob.get('raised') is not None and ob.get('changed'):
+                return fail('refused-step/object-changed', 'step %d (%s, %r) raised %s and left the object CHANGED: before %s, after %s' % (
+                    i, step_tok(steps[i - 1]), steps[i - 1][3:], ob['raised'], ob['changed'][0], ob['changed'][1]))
+            state = shadow_step(state, steps[i - 1], accepted=ob.get('raised') is None)
+        elif i > 0:
             state = shadow_step(state, steps[i - 1])
         if st_s.startswith('err-step'):
             return fail(kind + '/raises', 'step %d of the history raised: %s' % (i, st_s))
@@ -1029,6 +1158,8 @@ def judge_hist(c, fail):
         return fail('not-run', 'history incomplete')
     for rp in obs.get('reprs', []):
         want = '%r %s' % (ps[0] / float(FACTOR[lab]), lab)
+        if lab == 's' and rp == '%r None' % (ps[0] / float(FACTOR[lab]),):   # after an accepted convert_unit(None): None is the spelling of seconds
+            continue
         if rp != want:
             return fail('repr', 'the object prints as %r, expected %r (%d ps in %s)' % (rp, want, ps[0], lab))
     fop = m['fop']
